@@ -90,6 +90,13 @@ func runC10(c *Ctx) bool {
 					root.Kids = append(root.Kids, &model.Node{Name: "n" + strconv.Itoa(k) + "-" + strconv.Itoa(i) + "-padding-padding-"})
 				}
 				f = append(f, root)
+				if n > 100 && j%396 == 36 {
+					// a steady stream of small roots behind every huge one: while one worker is still
+					// writing its 80 KiB block the others have something to write all the time
+					for i := 0; i < 250; i++ {
+						f = append(f, &model.Node{Name: "small" + strconv.Itoa(k) + "-" + strconv.Itoa(i), Kids: []*model.Node{{Name: "kid"}}})
+					}
+				}
 			}
 			cs.AddTag("large-blocks")
 			cs.AddTag("huge-blocks")
